@@ -41,6 +41,7 @@ def check(ck):
         c06._document_level(ck, repo, w)
     with ck.rule("R8"):
         c06.rule_tables(ck, repo, w)
+        c06.values_of_correct_type_table(ck, repo)
         from .c03 import possible_type_sets
         possible_type_sets(ck, repo)
 
